@@ -24,7 +24,11 @@ RULE = ("A case is an interval [a,b] (a from a fixed list of integers/dyadic/irr
         "every split inserts leaf_left + ratio*(leaf width) with level max(neighbour levels)+1. Shapes: random leaf, always "
         "left-most / right-most leaf (strongly graded, up to 2^-25), zig-zag towards an interior point, complete binary "
         "prefix of depth 1-3 followed by random splits; ratios: 0.5 (dyadic), uniform in [0.2,0.8], {0.2,0.8} extremes or "
-        "mixed; 1-40 splits (3-42 points). Sub-checks: trapezoid (boundary / noboundary / modified), highorder "
+        "mixed; 1-40 splits (3-42 points). A quarter (hierarchical: a third) of the cases carries 'seq': ONE grid object is "
+        "driven through 2-3 set_grid calls (another tree on the same [a,b], a refined superset, the same points "
+        "relabelled, back to the first tree) and every clause is evaluated after EVERY set_grid; a violation that "
+        "only shows in a later round and not on a fresh object gets the signature suffix "
+        "/only-after-earlier-set_grid-calls-on-the-same-grid-object. Sub-checks: trapezoid (boundary / noboundary / modified), highorder "
         "(boundary T/F, max_degree 1-5, split_up T/F), hierarchical (Lagrange p 1-4, B-spline p 1,3,5 with boundary; "
         "B-spline boundary-off modified for the constant clause). Non-trivial = some dimension has >= 5 points and two "
         "leaves of different width. Distinct = distinct case dict. Class counters show the 3/4/5-point special cases, "
@@ -65,8 +69,9 @@ _LEN = [1.0, 3.0, 0.5, 2.0, 9.0, 0.75, 1.4142135623730951, 0.3]
 # ----------------------------------------------------------------------------------------------------------------
 # trees
 # ----------------------------------------------------------------------------------------------------------------
-def build_tree(a, b, splits):
-    """splits: [[leaf_index, ratio], ...] -> (points, levels) as python lists (floats / ints)."""
+def build_tree(a, b, splits, max_level=None):
+    """splits: [[leaf_index, ratio], ...] -> (points, levels) as python lists (floats / ints).
+    A split that would create a level above max_level (if given) is ignored."""
     pts = [float(a), float(b)]
     lev = [0, 0]
     for idx, ratio in splits:
@@ -75,6 +80,8 @@ def build_tree(a, b, splits):
         m = pts[i] + (pts[i + 1] - pts[i]) * r
         if not (pts[i] < m < pts[i + 1]):
             continue        # leaf too small to be split in floating point; ignore this split
+        if max_level is not None and max(lev[i], lev[i + 1]) + 1 > max_level:
+            continue
         pts.insert(i + 1, m)
         lev.insert(i + 1, max(lev[i], lev[i + 1]) + 1)
     return pts, lev
@@ -91,15 +98,20 @@ def complete_depth(lev):
     return m
 
 
-def relabel(pts, rng):
-    """another valid tree labelling of the same sorted point set (random binary tree over the interior points)."""
+def relabel(pts, rng, balanced=False):
+    """another valid tree labelling of the same sorted point set (random binary tree over the interior points;
+    balanced: every root is taken from the middle third of its range, so the depth stays <= log_1.5(n) + 1)."""
     lev = [0] * len(pts)
     stack = [(1, len(pts) - 1, 1)]
     while stack:
         lo, hi, l = stack.pop()
         if lo >= hi:
             continue
-        r = int(rng.integers(lo, hi))
+        if balanced:
+            third = (hi - lo) // 3
+            r = int(rng.integers(lo + third, hi - third))
+        else:
+            r = int(rng.integers(lo, hi))
         lev[r] = l
         stack.append((lo, r, l + 1))
         stack.append((r + 1, hi, l + 1))
@@ -223,11 +235,84 @@ def _silent(fn, *a, **kw):
         return fn(*a, **kw)
 
 
-def _lists(case):
+def _domain_of(case):
     a = [float(t) for t in case["a"]]
     b = [a[d] + float(case["len"][d]) for d in range(len(a))]
-    trees = [build_tree(a[d], b[d], case["trees"][d]) for d in range(len(a))]
-    return a, b, trees
+    return a, b
+
+
+def seq_rounds(case, a, b):
+    """[(kind, trees, splits)]: the trees ONE grid object receives through successive set_grid calls.
+    Round 0 ('base') is case['trees']; case['seq'] (optional) lists the following rounds:
+      other-tree {trees}: an unrelated tree on the same [a,b];  refine {splits}: the current tree plus further splits;
+      relabel {rng}: the same points with another valid level labelling;  back: the base tree again."""
+    import numpy as np
+    ml = case.get("max_level")
+    dim = len(a)
+
+    def cfg(splits):
+        return [build_tree(a[d], b[d], splits[d], ml) for d in range(dim)]
+    base_splits = [[list(t) for t in tr] for tr in case["trees"]]
+    base = cfg(base_splits)
+    res = [("base", base, base_splits)]
+    cur, cur_splits = base, base_splits
+    for r in case.get("seq") or []:
+        k = r["kind"]
+        if k == "back":
+            cur, cur_splits = base, base_splits
+        elif k == "other-tree":
+            cur_splits = [[list(t) for t in tr] for tr in r["trees"]]
+            cur = cfg(cur_splits)
+        elif k == "refine":
+            cur_splits = [cur_splits[d] + [list(t) for t in r["splits"][d]] for d in range(dim)]
+            cur = cfg(cur_splits)
+        elif k == "relabel":
+            rng = np.random.default_rng(int(r["rng"]))
+            cur = [(list(t[0]), relabel(t[0], rng, balanced=True)) for t in cur]
+        else:
+            raise ValueError(k)
+        res.append((k, cur, cur_splits))
+    return res
+
+
+SEQ_SUFFIX = "/only-after-earlier-set_grid-calls-on-the-same-grid-object"
+
+
+def drive(case, sub, out, a, b, make_grid, check_round):
+    """Drive ONE grid object through the rounds of the case (as an adaptive run does with its grid) and evaluate
+    every clause after EVERY set_grid.  check_round(out, g, trees, splits, k).  A violation that shows in a later
+    round is re-checked on a fresh grid object: if the same tree is clean there, the cause is state kept from the
+    earlier set_grid calls and the signature gets SEQ_SUFFIX."""
+    from vlib.core import guarded
+    rounds = seq_rounds(case, a, b)
+    if len(rounds) > 1:
+        out.cls("seq-rounds=%d" % len(rounds))
+    out.nontrivial = any(is_nontrivial_tree(t[0]) for t in rounds[0][1])
+    out.info["max_points"] = max(len(t[0]) for _, trees, _ in rounds for t in trees)
+    out.info["max_level"] = max(max(t[1]) for _, trees, _ in rounds for t in trees)
+
+    def one(o, g, trees, splits, k):
+        _silent(g.set_grid, [list(t[0]) for t in trees], [list(t[1]) for t in trees])
+        check_round(o, g, trees, splits, k)
+
+    g = make_grid()
+    for k, (kind, trees, splits) in enumerate(rounds):
+        if k > 0:
+            out.cls("seq:" + kind)
+        for d, (pts, lev) in enumerate(trees):
+            tree_classes(out, pts, lev, splits[d])
+        nb = len(out.violations)
+        guarded(sub, out, one, out, g, trees, splits, k)
+        if len(out.violations) > nb:
+            if k > 0:
+                fresh = Outcome()
+                guarded(sub, fresh, one, fresh, make_grid(), trees, splits, k)
+                if not fresh.violations:
+                    out.violations[nb:] = [(sig + SEQ_SUFFIX, ("round %d (%s) on a grid object that had %d earlier set_grid "
+                                            "call(s); a fresh object is clean on this tree. %s" % (k, kind, k, msg))[:600])
+                                           for sig, msg in out.violations[nb:]]
+            break
+    return out
 
 
 def check_structure(out, sub, g, trees, boundary):
@@ -263,55 +348,56 @@ def run_trapezoid(case):
     out = Outcome()
     sub = "trapezoid"
     mode = case["mode"]
-    a, b, trees = _lists(case)
+    a, b = _domain_of(case)
     dim = len(a)
-    rng = np.random.default_rng(int(case["rng"]))
     boundary = mode == "boundary"
-    g = GlobalTrapezoidalGrid(a, b, boundary=boundary, modified_basis=(mode == "modified"))
-    _silent(g.set_grid, [list(t[0]) for t in trees], [list(t[1]) for t in trees])
     out.cls("mode=" + mode, "d=%d" % dim)
-    for d, (pts, lev) in enumerate(trees):
-        tree_classes(out, pts, lev, case["trees"][d])
-    out.nontrivial = any(is_nontrivial_tree(t[0]) for t in trees)
-    out.info = dict(max_points=max(len(t[0]) for t in trees), max_level=max(max(t[1]) for t in trees))
-    if not check_structure(out, sub, g, trees, boundary):
-        return out
-    wrefs = []
-    for d, (pts, lev) in enumerate(trees):
-        w = [float(t) for t in g.weights[d]]
-        wref = check_trap_weights(out, sub, pts, w, mode, "dim %d" % d)
-        if wref is None:
-            return out
-        wrefs.append(wref)
-        # the weights depend on the point set only: same points, another valid tree labelling -> identical weights
-        g2 = GlobalTrapezoidalGrid([a[d]], [b[d]], boundary=boundary, modified_basis=(mode == "modified"))
-        _silent(g2.set_grid, [list(pts)], [relabel(pts, rng)])
-        w2 = [float(t) for t in g2.weights[0]]
-        if w2 != w:          # exact: the same floats must go through the same arithmetic
-            out.bad(sub + "/point-set-only/" + mode, "dim %d: weights change with the level labels: %s vs %s" % (d, w[:5], w2[:5]))
-    # arbitrary nodal values through the public integrate path (tensor rule for d=2)
-    xs = [t[0] if boundary else t[0][1:-1] for t in trees]
-    shape = [len(x) for x in xs]
-    vals = rng.normal(size=shape) * float(case.get("vscale", 1.0))
-    table = {}
-    for idx in np.ndindex(*shape):
-        table[tuple(xs[d][idx[d]] for d in range(dim))] = float(vals[idx])
-    f = FunctionCustom(_Table(table))
-    got = _silent(g.integrate, f, [max(t[1]) for t in trees], a, b)
-    got = float(np.asarray(got).reshape(-1)[0])
-    ref = vals
-    absref = np.abs(vals)
-    for d in range(dim):                      # contract dimension by dimension with the reference weights
-        ref = np.tensordot(np.array(wrefs[d]), ref, axes=(0, 0))
-        absref = np.tensordot(np.abs(np.array(wrefs[d])), absref, axes=(0, 0))
-    ref = float(ref)
-    sc = float(absref) + 1e-300
-    if not abs(got - ref) <= 1e-11 * sc:      # rounding seen < 1e-14*sc
-        out.bad("%s/integrate-nodal-values/%s" % (sub, mode),
-                "integrate() of a random nodal table gives %r, integral of the reference interpolant %r (d=%d, n=%s)"
-                % (got, ref, dim, shape))
-    out.info["rel_err_integrate"] = abs(got - ref) / sc
-    return out
+
+    def make_grid():
+        return GlobalTrapezoidalGrid(a, b, boundary=boundary, modified_basis=(mode == "modified"))
+
+    def check_round(out, g, trees, splits, k):
+        rng = np.random.default_rng([int(case["rng"]), k])
+        if not check_structure(out, sub, g, trees, boundary):
+            return
+        wrefs = []
+        for d, (pts, lev) in enumerate(trees):
+            w = [float(t) for t in g.weights[d]]
+            wref = check_trap_weights(out, sub, pts, w, mode, "dim %d" % d)
+            if wref is None:
+                return
+            wrefs.append(wref)
+            # the weights depend on the point set only: same points, another valid tree labelling -> identical weights
+            g2 = GlobalTrapezoidalGrid([a[d]], [b[d]], boundary=boundary, modified_basis=(mode == "modified"))
+            _silent(g2.set_grid, [list(pts)], [relabel(pts, rng)])
+            w2 = [float(t) for t in g2.weights[0]]
+            if w2 != w:          # exact: the same floats must go through the same arithmetic
+                out.bad(sub + "/point-set-only/" + mode,
+                        "dim %d: weights change with the level labels: %s vs %s" % (d, w[:5], w2[:5]))
+        # arbitrary nodal values through the public integrate path (tensor rule for d=2)
+        xs = [t[0] if boundary else t[0][1:-1] for t in trees]
+        shape = [len(x) for x in xs]
+        vals = rng.normal(size=shape) * float(case.get("vscale", 1.0))
+        table = {}
+        for idx in np.ndindex(*shape):
+            table[tuple(xs[d][idx[d]] for d in range(dim))] = float(vals[idx])
+        f = FunctionCustom(_Table(table))
+        got = _silent(g.integrate, f, [max(t[1]) for t in trees], a, b)
+        got = float(np.asarray(got).reshape(-1)[0])
+        ref = vals
+        absref = np.abs(vals)
+        for d in range(dim):                      # contract dimension by dimension with the reference weights
+            ref = np.tensordot(np.array(wrefs[d]), ref, axes=(0, 0))
+            absref = np.tensordot(np.abs(np.array(wrefs[d])), absref, axes=(0, 0))
+        ref = float(ref)
+        sc = float(absref) + 1e-300
+        if not abs(got - ref) <= 1e-11 * sc:      # rounding seen < 1e-14*sc
+            out.bad("%s/integrate-nodal-values/%s" % (sub, mode),
+                    "integrate() of a random nodal table gives %r, integral of the reference interpolant %r (d=%d, n=%s)"
+                    % (got, ref, dim, shape))
+        out.info["rel_err_integrate"] = max(out.info.get("rel_err_integrate", 0.0), abs(got - ref) / sc)
+
+    return drive(case, sub, out, a, b, make_grid, check_round)
 
 
 # ----------------------------------------------------------------------------------------------------------------
@@ -385,108 +471,109 @@ def run_highorder(case):
     boundary = bool(case["boundary"])
     maxdeg = int(case["max_degree"])
     split = bool(case["split_up"])
-    a, b, trees = _lists(case)
+    a, b = _domain_of(case)
     dim = len(a)
-    g = GlobalHighOrderGrid(a, b, boundary=boundary, max_degree=maxdeg, split_up=split)
-    _silent(g.set_grid, [list(t[0]) for t in trees], [list(t[1]) for t in trees])
     out.cls("boundary=%s" % boundary, "split_up=%s" % split, "max_degree=%d" % maxdeg, "d=%d" % dim)
-    for d, (pts, lev) in enumerate(trees):
-        tree_classes(out, pts, lev, case["trees"][d])
-    out.nontrivial = any(is_nontrivial_tree(t[0]) for t in trees)
-    out.info = dict(max_points=max(len(t[0]) for t in trees), max_level=max(max(t[1]) for t in trees))
-    if not check_structure(out, sub, g, trees, boundary):
-        return out
-    degs = []
-    mass_ok = True
-    for d, (pts, lev) in enumerate(trees):
-        x = pts if boundary else pts[1:-1]
-        w = [float(t) for t in g.weights[d]]
-        wfull = w if boundary else [0.0] + w + [0.0]
-        L = b[d] - a[d]
-        tagb = "boundary=%s" % ("on" if boundary else "off")
-        # (1) constants: sum of weights == b-a. tolerance 1e-10 relative (rounding seen 1e-15)
-        mass = math.fsum(w)
-        if not abs(mass - L) <= 1e-10 * L:
-            mass_ok = False
-            causes = set()
+
+    def make_grid():
+        return GlobalHighOrderGrid(a, b, boundary=boundary, max_degree=maxdeg, split_up=split)
+
+    def check_round(out, g, trees, splits, rk):
+        nb = len(out.violations)
+        if not check_structure(out, sub, g, trees, boundary):
+            return
+        degs = []
+        mass_ok = True
+        for d, (pts, lev) in enumerate(trees):
+            x = pts if boundary else pts[1:-1]
+            w = [float(t) for t in g.weights[d]]
+            wfull = w if boundary else [0.0] + w + [0.0]
+            L = b[d] - a[d]
+            tagb = "boundary=%s" % ("on" if boundary else "off")
+            # (1) constants: sum of weights == b-a. tolerance 1e-10 relative (rounding seen 1e-15)
+            mass = math.fsum(w)
+            if not abs(mass - L) <= 1e-10 * L:
+                mass_ok = False
+                causes = set()
+                if not boundary:
+                    _ho_blocks_explain(g, pts, lev, wfull, 0, len(pts) - 1, causes)
+                for cause in (sorted(causes) if causes else ["unexplained"]):
+                    out.bad("%s/constants/%s/%s" % (sub, tagb, cause),
+                            "dim %d: weights sum to %r, interval length %r; split_up=%s max_degree=%d n=%d pts=%s"
+                            % (d, mass, L, split, maxdeg, len(pts), pts[:10]))
+            # (2) the degree the rule itself reports (second, observing call on the same object)
+            w0, deg = _silent(g.get_1D_weights_and_order, list(pts), a[d], b[d], list(lev))
+            if split and len(pts) > 1 and (len(pts) > 3 or boundary):
+                w0, deg = _silent(g.recursive_splitting3, list(pts), a[d], b[d], deg, list(lev))
+            w0 = [float(t) for t in w0]
             if not boundary:
-                _ho_blocks_explain(g, pts, lev, wfull, 0, len(pts) - 1, causes)
-            for cause in (sorted(causes) if causes else ["unexplained"]):
-                out.bad("%s/constants/%s/%s" % (sub, tagb, cause),
-                        "dim %d: weights sum to %r, interval length %r; split_up=%s max_degree=%d n=%d pts=%s"
-                        % (d, mass, L, split, maxdeg, len(pts), pts[:10]))
-        # (2) the degree the rule itself reports (second, observing call on the same object)
-        w0, deg = _silent(g.get_1D_weights_and_order, list(pts), a[d], b[d], list(lev))
-        if split and len(pts) > 1 and (len(pts) > 3 or boundary):
-            w0, deg = _silent(g.recursive_splitting3, list(pts), a[d], b[d], deg, list(lev))
-        w0 = [float(t) for t in w0]
-        if not boundary:
-            w0 = w0[1:-1]
-        same = len(w0) == len(w) and all((w0[i] == w[i]) or (w0[i] != w0[i] and w[i] != w[i]) for i in range(len(w)))
-        if not same:
-            out.bad(sub + "/reported-degree/second-call-gives-other-weights", "dim %d: %s vs %s" % (d, w[:5], w0[:5]))
-            degs.append(0)
-            continue
-        deg = int(deg)
-        degs.append(deg)
-        out.cls("reported-degree=%d" % deg)
-        if deg == maxdeg:
-            out.cls("reported-degree==max_degree")
-        if deg > maxdeg:
-            out.bad(sub + "/reported-degree/above-max_degree", "dim %d: reported degree %d > max_degree %d" % (d, deg, maxdeg))
-        # "their order when there are enough points": on a uniform grid (>= 3 points, boundary on) the degree-2
-        # moment-matched weights are positive (3 points: Simpson), so a rule with max_degree >= 2 must reach order 2
-        widths = [pts[i + 1] - pts[i] for i in range(len(pts) - 1)]
-        if boundary and len(pts) >= 3 and max(widths) <= (1 + 1e-9) * min(widths):
-            out.cls("uniform-grid")
-            if deg < min(2, maxdeg):
-                out.bad(sub + "/order-on-uniform-grid/boundary=on",
-                        "dim %d: uniform grid with %d points, max_degree=%d, split_up=%s: the rule only reports degree %d"
-                        % (d, len(pts), maxdeg, split, deg))
-        # (3) exactness: linear with boundary; up to the reported degree (boundary off: only if it reports >= 2)
+                w0 = w0[1:-1]
+            same = len(w0) == len(w) and all((w0[i] == w[i]) or (w0[i] != w0[i] and w[i] != w[i]) for i in range(len(w)))
+            if not same:
+                out.bad(sub + "/reported-degree/second-call-gives-other-weights", "dim %d: %s vs %s" % (d, w[:5], w0[:5]))
+                degs.append(0)
+                continue
+            deg = int(deg)
+            degs.append(deg)
+            out.cls("reported-degree=%d" % deg)
+            if deg == maxdeg:
+                out.cls("reported-degree==max_degree")
+            if deg > maxdeg:
+                out.bad(sub + "/reported-degree/above-max_degree", "dim %d: reported degree %d > max_degree %d" % (d, deg, maxdeg))
+            # "their order when there are enough points": on a uniform grid (>= 3 points, boundary on) the degree-2
+            # moment-matched weights are positive (3 points: Simpson), so a rule with max_degree >= 2 must reach order 2
+            widths = [pts[i + 1] - pts[i] for i in range(len(pts) - 1)]
+            if boundary and len(pts) >= 3 and max(widths) <= (1 + 1e-9) * min(widths):
+                out.cls("uniform-grid")
+                if deg < min(2, maxdeg):
+                    out.bad(sub + "/order-on-uniform-grid/boundary=on",
+                            "dim %d: uniform grid with %d points, max_degree=%d, split_up=%s: the rule only reports degree %d"
+                            % (d, len(pts), maxdeg, split, deg))
+            # (3) exactness: linear with boundary; up to the reported degree (boundary off: only if it reports >= 2)
+            if boundary:
+                kmax = max(1, deg)
+            else:
+                kmax = deg if deg >= 2 else 0
+            if not mass_ok:
+                kmax = 0            # already reported; the same cause would only be repeated
+            for k in range(1, kmax + 1):
+                got = math.fsum(w[i] * x[i] ** k for i in range(len(w)))
+                ref = mono_integral(a[d], b[d], k)
+                sc = math.fsum(abs(w[i]) * abs(x[i]) ** k for i in range(len(w))) + abs(ref) + 1e-300
+                if not abs(got - ref) <= 1e-10 * sc:          # rounding seen < 1e-15*sc
+                    cause = "k<=reported-degree"
+                    if not boundary and _ho_degenerate_block(g, pts, lev, wfull, 0, len(pts) - 1):
+                        cause = "degree>=interior-points"
+                    elif boundary and k == 1:
+                        cause = "linear"
+                    out.bad("%s/polynomial-exactness/%s/%s" % (sub, tagb, cause),
+                            "dim %d: integral of x^%d is %r, exact %r; reported degree %d, max_degree=%d split_up=%s n=%d pts=%s"
+                            % (d, k, got, ref, deg, maxdeg, split, len(pts), pts[:10]))
+                    break
+        if len(out.violations) > nb:
+            return
+        # (4) public integrate path (tensor rule for d=2) on monomials within the reported degrees
+        combos = {tuple([0] * dim)}
         if boundary:
-            kmax = max(1, deg)
+            combos.add(tuple([1] * dim))
+            combos.add(tuple(max(1, k) for k in degs))
         else:
-            kmax = deg if deg >= 2 else 0
-        if not mass_ok:
-            kmax = 0            # already reported; the same cause would only be repeated
-        for k in range(1, kmax + 1):
-            got = math.fsum(w[i] * x[i] ** k for i in range(len(w)))
-            ref = mono_integral(a[d], b[d], k)
-            sc = math.fsum(abs(w[i]) * abs(x[i]) ** k for i in range(len(w))) + abs(ref) + 1e-300
-            if not abs(got - ref) <= 1e-10 * sc:          # rounding seen < 1e-15*sc
-                cause = "k<=reported-degree"
-                if not boundary and _ho_degenerate_block(g, pts, lev, wfull, 0, len(pts) - 1):
-                    cause = "degree>=interior-points"
-                elif boundary and k == 1:
-                    cause = "linear"
-                out.bad("%s/polynomial-exactness/%s/%s" % (sub, tagb, cause),
-                        "dim %d: integral of x^%d is %r, exact %r; reported degree %d, max_degree=%d split_up=%s n=%d pts=%s"
-                        % (d, k, got, ref, deg, maxdeg, split, len(pts), pts[:10]))
+            combos.add(tuple(k if k >= 2 else 0 for k in degs))
+        for ks in sorted(combos):
+            f = FunctionCustom(_Mono(ks))
+            got = _silent(g.integrate, f, [max(t[1]) for t in trees], a, b)
+            got = float(np.asarray(got).reshape(-1)[0])
+            ref = 1.0
+            sc = 1.0
+            for d in range(dim):
+                ref *= mono_integral(a[d], b[d], ks[d])
+                sc *= (b[d] - a[d]) * max(abs(a[d]), abs(b[d])) ** ks[d]
+            if not abs(got - ref) <= 1e-10 * (sc + abs(ref)):
+                out.bad("%s/integrate-monomial/%s" % (sub, "boundary=%s" % ("on" if boundary else "off")),
+                        "integrate(x^%s) = %r, exact %r (reported degrees %s)" % (list(ks), got, ref, degs))
                 break
-    if out.violations:
-        return out
-    # (4) public integrate path (tensor rule for d=2) on monomials within the reported degrees
-    combos = {tuple([0] * dim)}
-    if boundary:
-        combos.add(tuple([1] * dim))
-        combos.add(tuple(max(1, k) for k in degs))
-    else:
-        combos.add(tuple(k if k >= 2 else 0 for k in degs))
-    for ks in sorted(combos):
-        f = FunctionCustom(_Mono(ks))
-        got = _silent(g.integrate, f, [max(t[1]) for t in trees], a, b)
-        got = float(np.asarray(got).reshape(-1)[0])
-        ref = 1.0
-        sc = 1.0
-        for d in range(dim):
-            ref *= mono_integral(a[d], b[d], ks[d])
-            sc *= (b[d] - a[d]) * max(abs(a[d]), abs(b[d])) ** ks[d]
-        if not abs(got - ref) <= 1e-10 * (sc + abs(ref)):
-            out.bad("%s/integrate-monomial/%s" % (sub, "boundary=%s" % ("on" if boundary else "off")),
-                    "integrate(x^%s) = %r, exact %r (reported degrees %s)" % (list(ks), got, ref, degs))
-            break
-    return out
+
+    return drive(case, sub, out, a, b, make_grid, check_round)
 
 
 class _Monos(object):
@@ -529,66 +616,69 @@ def run_hierarchical(case):
     out = Outcome()
     sub = "hierarchical"
     family, p, mode = case["family"], int(case["p"]), case["mode"]
-    a, b, trees = _lists(case)
+    a, b = _domain_of(case)
     dim = len(a)
     boundary = mode == "boundary"
     cls = GlobalLagrangeGrid if family == "lagrange" else GlobalBSplineGrid
-    g = cls(a, b, boundary=boundary, modified_basis=(mode == "modified"), p=p)
-    _silent(g.set_grid, [list(t[0]) for t in trees], [list(t[1]) for t in trees])
     out.cls("%s-p%d" % (family, p), "mode=" + mode, "d=%d" % dim)
-    for d, (pts, lev) in enumerate(trees):
-        tree_classes(out, pts, lev, case["trees"][d])
-    out.nontrivial = any(is_nontrivial_tree(t[0]) for t in trees)
-    out.info = dict(max_points=max(len(t[0]) for t in trees), max_level=max(max(t[1]) for t in trees))
-    if not check_structure(out, sub, g, trees, boundary):
-        return out
-    kmax, cond = [], 1.0
-    for d, (pts, lev) in enumerate(trees):
-        m = complete_depth(lev)
-        kmax.append(hier_kmax(family, p, mode, m))
-        x = [float(t) for t in g.coordinate_array[d]]
-        if len(g.basis[d]) != len(x):
-            out.bad(sub + "/structure/basis-count", "dim %d: %d basis functions for %d nodes" % (d, len(g.basis[d]), len(x)))
-            return out
-        M = np.array([[float(g.basis[d][j](xi)) for j in range(len(x))] for xi in x])
-        c = float(np.linalg.cond(M)) if np.all(np.isfinite(M)) else float("inf")
-        cond = cond * c         # the tensor-product collocation system has the product of the 1D condition numbers
-        out.cls("complete-depth=%d" % min(m, 4))
-    out.info["max_cond"] = cond if math.isfinite(cond) else 1e300
-    if not cond <= 1e9:
-        out.cls("ill-conditioned-skipped")
-        return out
-    out.cls("demanded-degree=%d" % max(kmax))
-    if family == "bspline" and max(kmax) == p and p > 1 or family == "lagrange" and max(kmax) == p and p > 2:
-        out.cls("full-order-demanded(p>=3)")
-    if dim == 1:
-        combos = [(k,) for k in range(kmax[0] + 1)]
-    else:
-        combos = sorted({(0, 0), (min(1, kmax[0]), min(1, kmax[1])), (kmax[0], 0), (0, kmax[1]), (kmax[0], kmax[1])})
-    relmax = 0.0
-    f = FunctionCustom(_Monos(combos), output_dim=len(combos))
-    res = np.asarray(_silent(g.integrate, f, [max(t[1]) for t in trees], a, b), dtype=float).reshape(-1)
-    if len(res) != len(combos):
-        out.bad(sub + "/structure/integrate-output-length", "%d results for %d components" % (len(res), len(combos)))
-        return out
-    for ci, ks in enumerate(combos):
-        got = float(res[ci])
-        ref, sc = 1.0, 1.0
-        for d in range(dim):
-            ref *= mono_integral(a[d], b[d], ks[d])
-            sc *= (b[d] - a[d]) * max(abs(a[d]), abs(b[d]), b[d] - a[d]) ** ks[d]
-        tol = (sc + abs(ref)) * (1e-10 + 1e-14 * cond)
-        relmax = max(relmax, abs(got - ref) / (sc + abs(ref)))
-        if not abs(got - ref) <= tol:
-            kk = max(ks)
-            clause = "constants" if kk == 0 else "linear" if kk == 1 else "degree<=order-with-enough-points"
-            out.bad("%s/%s/%s-%s" % (sub, clause, family, mode),
-                    "%s p=%d %s: integrate(x^%s) = %r, exact %r; complete depths %s, n=%s, cond=%.1e, pts=%s lev=%s"
-                    % (family, p, mode, list(ks), got, ref, [complete_depth(t[1]) for t in trees],
-                       [len(t[0]) for t in trees], cond, trees[0][0][:9], trees[0][1][:9]))
-            break
-    out.info["rel_err"] = relmax
-    return out
+
+    def make_grid():
+        return cls(a, b, boundary=boundary, modified_basis=(mode == "modified"), p=p)
+
+    def check_round(out, g, trees, splits, rk):
+        if not check_structure(out, sub, g, trees, boundary):
+            return
+        kmax, cond = [], 1.0
+        for d, (pts, lev) in enumerate(trees):
+            m = complete_depth(lev)
+            kmax.append(hier_kmax(family, p, mode, m))
+            x = [float(t) for t in g.coordinate_array[d]]
+            if len(g.basis[d]) != len(x):
+                out.bad(sub + "/structure/basis-count",
+                        "dim %d: %d basis functions for %d nodes" % (d, len(g.basis[d]), len(x)))
+                return
+            M = np.array([[float(g.basis[d][j](xi)) for j in range(len(x))] for xi in x])
+            c = float(np.linalg.cond(M)) if np.all(np.isfinite(M)) else float("inf")
+            cond = cond * c     # the tensor-product collocation system has the product of the 1D condition numbers
+            out.cls("complete-depth=%d" % min(m, 4))
+        out.info["max_cond"] = max(out.info.get("max_cond", 0.0), cond if math.isfinite(cond) else 1e300)
+        if not cond <= 1e9:
+            out.cls("ill-conditioned-skipped")
+            return
+        out.cls("demanded-degree=%d" % max(kmax))
+        if family == "bspline" and max(kmax) == p and p > 1 or family == "lagrange" and max(kmax) == p and p > 2:
+            out.cls("full-order-demanded(p>=3)")
+        if rk > 0 and family == "bspline" and p >= 3:
+            out.cls("seq:bspline-p>=3-later-round-checked")
+        if dim == 1:
+            combos = [(k,) for k in range(kmax[0] + 1)]
+        else:
+            combos = sorted({(0, 0), (min(1, kmax[0]), min(1, kmax[1])), (kmax[0], 0), (0, kmax[1]), (kmax[0], kmax[1])})
+        relmax = 0.0
+        f = FunctionCustom(_Monos(combos), output_dim=len(combos))
+        res = np.asarray(_silent(g.integrate, f, [max(t[1]) for t in trees], a, b), dtype=float).reshape(-1)
+        if len(res) != len(combos):
+            out.bad(sub + "/structure/integrate-output-length", "%d results for %d components" % (len(res), len(combos)))
+            return
+        for ci, ks in enumerate(combos):
+            got = float(res[ci])
+            ref, sc = 1.0, 1.0
+            for d in range(dim):
+                ref *= mono_integral(a[d], b[d], ks[d])
+                sc *= (b[d] - a[d]) * max(abs(a[d]), abs(b[d]), b[d] - a[d]) ** ks[d]
+            tol = (sc + abs(ref)) * (1e-10 + 1e-14 * cond)
+            relmax = max(relmax, abs(got - ref) / (sc + abs(ref)))
+            if not abs(got - ref) <= tol:
+                kk = max(ks)
+                clause = "constants" if kk == 0 else "linear" if kk == 1 else "degree<=order-with-enough-points"
+                out.bad("%s/%s/%s-%s" % (sub, clause, family, mode),
+                        "%s p=%d %s: integrate(x^%s) = %r, exact %r; complete depths %s, n=%s, cond=%.1e, pts=%s lev=%s"
+                        % (family, p, mode, list(ks), got, ref, [complete_depth(t[1]) for t in trees],
+                           [len(t[0]) for t in trees], cond, trees[0][0][:9], trees[0][1][:9]))
+                break
+        out.info["rel_err"] = max(out.info.get("rel_err", 0.0), relmax)
+
+    return drive(case, sub, out, a, b, make_grid, check_round)
 
 
 # ----------------------------------------------------------------------------------------------------------------
@@ -648,6 +738,28 @@ def _tree(draw, max_splits, min_complete=0, graded_ok=True, weighted_ok=True, ma
     return splits
 
 
+_SEQ_KINDS = [["other-tree"], ["other-tree", "back"], ["other-tree", "other-tree"], ["other-tree", "refine"],
+              ["refine"], ["refine", "back"], ["relabel"], ["relabel", "back"], ["relabel", "other-tree"],
+              ["refine", "relabel"]]
+
+
+@st.composite
+def _seq(draw, dim, other_tree):
+    """1-2 further set_grid rounds for the same grid object (so 2-3 set_grid calls in total)."""
+    seq = []
+    for k in draw(st.sampled_from(_SEQ_KINDS)):
+        if k == "other-tree":
+            seq.append(dict(kind=k, trees=[draw(other_tree()) for _ in range(dim)]))
+        elif k == "refine":
+            seq.append(dict(kind=k, splits=[[[draw(st.integers(0, 60)), draw(st.sampled_from([0.5, 0.5, 0.3, 0.7, 0.2]))]
+                                             for _ in range(draw(st.integers(1, 4)))] for _ in range(dim)]))
+        elif k == "relabel":
+            seq.append(dict(kind=k, rng=draw(st.integers(0, 2 ** 31 - 1))))
+        else:
+            seq.append(dict(kind=k))
+    return seq
+
+
 @st.composite
 def _domain(draw, dim):
     return ([draw(st.sampled_from(_A)) for _ in range(dim)], [draw(st.sampled_from(_LEN)) for _ in range(dim)])
@@ -662,9 +774,14 @@ def trapezoid_strategy(tier):
         a, ln = draw(_domain(dim))
         mode = draw(st.sampled_from(["boundary", "noboundary", "modified", "modified"]))
         small = draw(st.integers(0, 5)) == 0       # the 3-6 point special cases get their own share
-        trees = [draw(_tree(draw(st.integers(1, 4)) if small else (big if dim == 1 else 14))) for _ in range(dim)]
-        return dict(a=a, len=ln, mode=mode, trees=trees, rng=draw(st.integers(0, 2 ** 31 - 1)),
+        def tree():
+            return _tree(draw(st.integers(1, 4)) if small else (big if dim == 1 else 14))
+        trees = [draw(tree()) for _ in range(dim)]
+        case = dict(a=a, len=ln, mode=mode, trees=trees, rng=draw(st.integers(0, 2 ** 31 - 1)),
                     vscale=draw(st.sampled_from([1.0, 1.0, 1e3, 1e-3])))
+        if draw(st.integers(0, 3)) == 0:
+            case["seq"] = draw(_seq(dim, tree))
+        return case
     return s()
 
 
@@ -676,9 +793,14 @@ def highorder_strategy(tier):
         dim = draw(st.sampled_from([1, 1, 1, 2]))
         a, ln = draw(_domain(dim))
         small = draw(st.integers(0, 5)) == 0
-        trees = [draw(_tree(draw(st.integers(1, 5)) if small else (big if dim == 1 else 14))) for _ in range(dim)]
-        return dict(a=a, len=ln, boundary=draw(st.booleans()), max_degree=draw(st.sampled_from([2, 5, 2, 5, 1, 3, 4])),
+        def tree():
+            return _tree(draw(st.integers(1, 5)) if small else (big if dim == 1 else 14))
+        trees = [draw(tree()) for _ in range(dim)]
+        case = dict(a=a, len=ln, boundary=draw(st.booleans()), max_degree=draw(st.sampled_from([2, 5, 2, 5, 1, 3, 4])),
                     split_up=draw(st.booleans()), trees=trees, rng=draw(st.integers(0, 2 ** 31 - 1)))
+        if draw(st.integers(0, 3)) == 0:
+            case["seq"] = draw(_seq(dim, tree))
+        return case
     return s()
 
 
@@ -718,10 +840,20 @@ def hierarchical_strategy(tier):
             need = draw(st.sampled_from([0, 0, {1: 1, 3: 2, 5: 3}[p]]))
         small = draw(st.integers(0, 6)) == 0
         # GlobalBSplineGrid materialises the complete dyadic hierarchy (2^level entries per level): bound the depth
-        trees = [draw(_tree(draw(st.integers(1, 4)) if small else (big if dim == 1 else 10),
-                            min_complete=0 if small else need,
-                            max_level=(11 if tier == "quick" else 13) if family == "bspline" else 60)) for _ in range(dim)]
-        return dict(a=a, len=ln, family=family, p=p, mode=mode, trees=trees, rng=draw(st.integers(0, 2 ** 31 - 1)))
+        max_level = (11 if tier == "quick" else 13) if family == "bspline" else 60
+        seq = draw(st.integers(0, 2)) == 0
+        size = draw(st.integers(1, 4)) if small else ((big if not seq else 16) if dim == 1 else 10)
+
+        def tree():
+            return _tree(size, min_complete=0 if small else need, max_level=max_level)
+        trees = [draw(tree()) for _ in range(dim)]
+        case = dict(a=a, len=ln, family=family, p=p, mode=mode, trees=trees, rng=draw(st.integers(0, 2 ** 31 - 1)))
+        if family == "bspline":
+            case["max_level"] = max_level
+        if seq:
+            # ONE grid object receives 2-3 trees (caches keyed by level/index must not survive a set_grid)
+            case["seq"] = draw(_seq(dim, tree))
+        return case
     return s()
 
 
@@ -787,6 +919,31 @@ def selftest():
     causes = set()
     _ho_blocks_explain(_Fake(other), fp, [0, 2, 1, 0], other, 0, 3, causes)
     assert causes == {"unexplained"}, causes
+    # sequences: rounds are built as documented; state kept across set_grid calls is attributed by the suffix
+    c = dict(a=[0.0], len=[1.0], trees=[[[0, 0.5]]], rng=1,
+             seq=[dict(kind="refine", splits=[[[0, 0.5]]]), dict(kind="back")])
+    rr = seq_rounds(c, [0.0], [1.0])
+    assert [r[0] for r in rr] == ["base", "refine", "back"] and rr[1][1][0][0] == [0.0, 0.25, 0.5, 1.0] \
+        and rr[2][1][0][0] == [0.0, 0.5, 1.0], rr
+
+    class _G(object):
+        def __init__(self):
+            self.calls = 0
+
+        def set_grid(self, pts, lev):
+            self.calls += 1
+
+    def stale(o, g, trees, splits, k):
+        if g.calls > 1:
+            o.bad("t/clause", "stale")
+
+    def always(o, g, trees, splits, k):
+        if k == 1:
+            o.bad("t/clause", "wrong on this tree")
+    o = drive(c, "t", Outcome(), [0.0], [1.0], _G, stale)
+    assert [sg for sg, _ in o.violations] == ["t/clause" + SEQ_SUFFIX] and "seq-rounds=3" in o.classes, o.violations
+    o = drive(c, "t", Outcome(), [0.0], [1.0], _G, always)
+    assert [sg for sg, _ in o.violations] == ["t/clause"], o.violations
     # end to end: the three sub-checks accept the closed-form cases on uniform grids (trapezoid h/2,h,..,h/2; the
     # high-order rule on 3 uniform points must be Simpson; Lagrange p=2 on [a,m,b] integrates x^2)
     o = run_trapezoid(dict(a=[0.0], len=[1.0], mode="boundary", trees=[complete_splits(2)], rng=1))
@@ -798,10 +955,10 @@ def selftest():
 
 
 SUBS = [
-    Sub("trapezoid", trapezoid_strategy, run_trapezoid, dict(quick=9600, thorough=96000),
+    Sub("trapezoid", trapezoid_strategy, run_trapezoid, dict(quick=8000, thorough=96000),
         budget_s=dict(quick=17, thorough=170)),
-    Sub("highorder", highorder_strategy, run_highorder, dict(quick=6400, thorough=64000),
+    Sub("highorder", highorder_strategy, run_highorder, dict(quick=5600, thorough=64000),
         budget_s=dict(quick=17, thorough=170), fixed_cases=highorder_fixed),
-    Sub("hierarchical", hierarchical_strategy, run_hierarchical, dict(quick=4800, thorough=32000),
+    Sub("hierarchical", hierarchical_strategy, run_hierarchical, dict(quick=4000, thorough=32000),
         budget_s=dict(quick=18, thorough=200)),
 ]
